@@ -1,7 +1,340 @@
 import ConfModel.Driver.Common
+import ConfModel.Model.H2Conn
+import ConfModel.Spec.H2
 namespace ConfModel.Driver.C15
-open Lean ConfModel.Driver
+open Lean ConfModel.Driver ConfModel.H2
 
-def handle : Handler := fun op _inp _impl => bad ("C15: unknown op " ++ op)
+/-! ### JSON <-> model values -/
+
+def errStr : Err → String
+  | .none => "nil"
+  | .stream id c => s!"stream:{id}:{c}"
+  | .conn c => s!"conn:{c}"
+  | .io t => "io:" ++ t
+  | .closed t => "closed:" ++ t
+
+def parseErr (s : String) : Err :=
+  if s == "nil" then .none else
+  match s.splitOn ":" with
+  | ["stream", a, b] => .stream (a.toNat?.getD 0) (b.toNat?.getD 0)
+  | ["conn", a] => .conn (a.toNat?.getD 0)
+  | "io" :: rest => .io (":".intercalate rest)
+  | "closed" :: rest => .closed (":".intercalate rest)
+  | _ => .io ("?" ++ s)
+
+def envJson : Option Env → List Json
+  | some e => [toJson (Int.ofNat e.flags), toJson (Int.ofNat e.len)]
+  | none => [toJson (-1 : Int), toJson (-1 : Int)]
+
+def oevJson : OEv → Json
+  | .reqStart => Json.arr #["reqStart"]
+  | .reqData e l i => Json.arr (([Json.str "reqData"] ++ envJson e ++ [toJson l, toJson i]).toArray)
+  | .reqEnd e => Json.arr #["reqEnd", errStr e]
+  | .respStart s => Json.arr #["respStart", toJson s]
+  | .respData e l i => Json.arr (([Json.str "respData"] ++ envJson e ++ [toJson l, toJson i]).toArray)
+  | .respEos c => Json.arr #["respEos", hex c]
+  | .respEnd e => Json.arr #["respEnd", errStr e]
+  | .canceled => Json.arr #["canceled"]
+
+def parseEnv (f l : Json) : Option Env :=
+  if int f < 0 then none else some { flags := (int f).toNat, len := (int l).toNat }
+
+def parseOEv (j : Json) : OEv :=
+  match arr j with
+  | k :: rest =>
+    match str k, rest with
+    | "reqStart", _ => .reqStart
+    | "reqData", [f, l, n, i] => .reqData (parseEnv f l) (nat n) (nat i)
+    | "reqEnd", [e] => .reqEnd (parseErr (str e))
+    | "respStart", [s] => .respStart (nat s)
+    | "respData", [f, l, n, i] => .respData (parseEnv f l) (nat n) (nat i)
+    | "respEos", [c] => .respEos (unhex (str c))
+    | "respEnd", [e] => .respEnd (parseErr (str e))
+    | _, _ => .canceled
+  | [] => .canceled
+
+def hdrsJson (h : List (String × List String)) : Json :=
+  Json.arr (h.map (fun p => Json.arr #[p.1, toJson p.2])).toArray
+
+def parseHdrs (j : Json) : List (String × List String) :=
+  (arr j).map (fun p => match arr p with
+    | [k, vs] => (str k, strList vs)
+    | _ => ("", []))
+
+def obsJson (o : Obs) : Json :=
+  Json.mkObj [("name", o.name), ("method", o.method), ("scheme", o.scheme), ("authority", o.authority),
+    ("path", o.path), ("query", o.query), ("fq", o.forceQuery), ("headers", hdrsJson o.headers),
+    ("hasResp", o.hasResp), ("status", toJson o.status), ("respHeaders", hdrsJson o.respHeaders),
+    ("respTrailers", hdrsJson o.respTrailers), ("err", errStr o.err),
+    ("events", Json.arr (o.events.map oevJson).toArray)]
+
+def parseObs (j : Json) : Obs :=
+  { name := str (field j "name"), method := str (field j "method"), scheme := str (field j "scheme"),
+    authority := str (field j "authority"), path := str (field j "path"), query := str (field j "query"),
+    forceQuery := bool (field j "fq"), headers := parseHdrs (field j "headers"),
+    hasResp := bool (field j "hasResp"), status := nat (field j "status"),
+    respHeaders := parseHdrs (field j "respHeaders"), respTrailers := parseHdrs (field j "respTrailers"),
+    err := parseErr (str (field j "err")), events := (arr (field j "events")).map parseOEv }
+
+def parseFields (j : Json) : Fields :=
+  (arr j).map (fun p => match arr p with
+    | [k, v] => (str k, str v)
+    | _ => ("", ""))
+
+/-- a decoded frame as the harness reports it (and the generator's abstract frames) -/
+def parseFrame (j : Json) : Frame :=
+  match str (field j "t") with
+  | "H" => .headers (nat (field j "id")) (parseFields (field j "f")) (bool (field j "es"))
+  | "D" => .data (nat (field j "id")) (unhex (str (field j "x"))) (bool (field j "es"))
+  | "R" => .rst (nat (field j "id")) (nat (field j "code"))
+  | "G" => .goaway (nat (field j "last")) (nat (field j "code"))
+  | _ => .other
+
+/-- canonical order of a multiset of observed traces: by name, then by serialisation -/
+def sortObs (l : List Obs) : List Obs :=
+  let keyed := l.map (fun o => (o.name ++ "\u0000" ++ (obsJson o).compress, o))
+  (keyed.toArray.qsort (fun a b => a.1 < b.1)).toList.map (·.2)
+
+/-! ### the decoder parameter, from the harness's table of decode units -/
+
+/-- σ = (index of the next unit, number of table misses) -/
+abbrev HP := Nat × Nat
+
+def mkDec (tbl : Array (Bytes × Option Frame)) : Bytes → HP → Option (Frame × HP) :=
+  fun b hp =>
+    match tbl[hp.1]? with
+    | some (b', some f) => if b' == b then some (f, (hp.1 + 1, hp.2)) else some (.other, (hp.1 + 1, hp.2 + 1))
+    | some (b', none) => if b' == b then none else some (.other, (hp.1 + 1, hp.2 + 1))
+    | none => some (.other, (hp.1 + 1, hp.2 + 1))
+
+def parseUnits (j : Json) : Array (Bytes × Option Frame) :=
+  ((arr j).map (fun u => (unhex (str (field u "b")), if isNull (field u "f") then none else some (parseFrame (field u "f"))))).toArray
+
+def parseIOErr (kind tag : Json) : IOErr :=
+  match str kind with
+  | "timeout" => .timeout (str tag)
+  | "fail" => .fail (str tag)
+  | _ => .ok
+
+/-! ### calls: split the two byte strings as the script says -/
+
+structure Cur where
+  r : Nat := 0
+  w : Nat := 0
+
+def mkCalls (rbytes wbytes : Bytes) : Cur → List Json → List Call
+  | _, [] => []
+  | c, j :: js =>
+    match arr j with
+    | k :: rest =>
+      match str k, rest with
+      | "r", [n, kind, tag] =>
+        Call.read ((rbytes.drop c.r).take (nat n)) (parseIOErr kind tag) :: mkCalls rbytes wbytes { c with r := c.r + nat n } js
+      | "w", [n, kind, tag] =>
+        Call.write ((wbytes.drop c.w).take (nat n)) (parseIOErr kind tag) :: mkCalls rbytes wbytes { c with w := c.w + nat n } js
+      | "c", [kind, tag] => Call.close (parseIOErr kind tag) :: mkCalls rbytes wbytes c js
+      | "t", _ => Call.timers :: mkCalls rbytes wbytes c js
+      | _, _ => mkCalls rbytes wbytes c js
+    | [] => mkCalls rbytes wbytes c js
+
+/-! ### the wire events in the order the tracer gets to see them (for the spec only) -/
+
+/-- frames of one direction with the offset at which each is complete -/
+def frameEnds (start : Nat) : List (Frame × Nat) → List (Frame × Nat)
+  | [] => []
+  | (f, len) :: fs => (f, start + len) :: frameEnds (start + len) fs
+
+structure WCur where
+  pos : Nat := 0
+  todo : List (Frame × Nat)
+
+def advance (isReq : Bool) (c : WCur) (n : Nat) : WCur × List WEv :=
+  let pos := c.pos + n
+  let done := c.todo.takeWhile (fun p => p.2 ≤ pos)
+  ({ pos := pos, todo := c.todo.drop done.length }, done.map (fun p => WEv.frame isReq p.1))
+
+def ioLost (e : IOErr) (closing : Bool) : List WEv :=
+  match e, closing with
+  | .ok, true => [WEv.lost (.closed "")]
+  | .ok, false => []
+  | .timeout t, true => [WEv.lost (.closed t)]
+  | .fail t, true => [WEv.lost (.closed t)]
+  | .fail t, false => [WEv.lost (.io t)]
+  | .timeout _, false => []
+
+def wireEvents (isServer : Bool) : WCur → WCur → List Json → List WEv
+  | _, _, [] => []
+  | rc, wc, j :: js =>
+    match arr j with
+    | k :: rest =>
+      match str k, rest with
+      | "r", [n, kind, tag] =>
+        let a := advance isServer rc (nat n)
+        a.2 ++ ioLost (parseIOErr kind tag) false ++ wireEvents isServer a.1 wc js
+      | "w", [n, kind, tag] =>
+        let a := advance (!isServer) wc (nat n)
+        let e := parseIOErr kind tag
+        a.2 ++ (match e with | .timeout t => [WEv.lost (.io t)] | _ => ioLost e false) ++ wireEvents isServer rc a.1 js
+      | "c", [kind, tag] => ioLost (parseIOErr kind tag) true ++ wireEvents isServer rc wc js
+      | "t", _ => WEv.timers :: wireEvents isServer rc wc js
+      | _, _ => wireEvents isServer rc wc js
+    | [] => wireEvents isServer rc wc js
+
+/-! ### judging -/
+
+def namesOf (es : List Expect) : List String := asSet ((es.map (·.name)).filter (· != ""))
+
+/-- the property on the delivered traces, for well-formed traffic -/
+def checkTraces (isServer : Bool) (es : List Expect) (impl : List Obs) : Option String :=
+  let names := namesOf es
+  let spurious := impl.filter (fun o => !names.contains o.name)
+  if !spurious.isEmpty then some ("trace for a test name that no stream carries: " ++ (spurious.map (·.name)).toString) else
+  names.foldl (fun acc n =>
+    match acc with
+    | some e => some e
+    | none =>
+      let due := es.filter (fun e => e.name == n && e.due)
+      let got := impl.filter (fun o => o.name == n)
+      if got.length != due.length then
+        some s!"test name {n}: {due.length} completed trace(s) due (stream ids {(due.map (·.id))}), {got.length} delivered"
+      else if (due.zip got).all (fun p => traceOK isServer p.1 p.2) then none
+      else some s!"test name {n}: the delivered trace does not have the stream's request line/headers, messages, response or end (stream ids {(due.map (·.id))})") none
+
+def handleConn (inp impl : Json) : Verdict :=
+  let panic := str (field impl "panic")
+  if panic != "" then { agree := false, holds := false, why := "panic: " ++ panic, cls := "panic" } else
+  let isServer := bool (field inp "server")
+  let q := unhex (str (field impl "q"))
+  let p := unhex (str (field impl "p"))
+  let rbytes := if isServer then q else p
+  let wbytes := if isServer then p else q
+  let uq := parseUnits (field (field impl "units") "q")
+  let up := parseUnits (field (field impl "units") "p")
+  let decR := mkDec (if isServer then uq else up)
+  let decW := mkDec (if isServer then up else uq)
+  let callsJ := arr (field inp "calls")
+  let calls := mkCalls rbytes wbytes {} callsJ
+  let c0 : Conn HP := Conn.init isServer (0, 0) (0, 0)
+  let c := Conn.run decR decW c0 calls
+  let misses := c.rd.hp.2 + c.wr.hp.2
+  let mTraces := sortObs (c.coll.out.map Trace.obs)
+  let iTraces := sortObs ((arr (field impl "traces")).map parseObs)
+  let transparent := bool (field impl "transparent")
+  -- the spec side
+  let legal := bool (field inp "legal")
+  let framesJ := arr (field inp "frames")
+  let lens := natList (field impl "lens")
+  let fl := (framesJ.zip lens).map (fun x => (str (field x.1 "d"), parseFrame x.1, x.2))
+  let qf := frameEnds prefaceLen ((fl.filter (·.1 == "q")).map (·.2))
+  let pf := frameEnds 0 ((fl.filter (·.1 == "p")).map (·.2))
+  let ws := wireEvents isServer { todo := if isServer then qf else pf } { todo := if isServer then pf else qf } callsJ
+  let wf := legal && wellFormed ws
+  let es := expects [] ws
+  let traceProblem := if wf then checkTraces isServer es iTraces else none
+  let holds := transparent && traceProblem.isNone
+  let agree := misses == 0 && mTraces == iTraces
+  { agree := agree, holds := holds,
+    nontrivial := if wf then !(namesOf es).isEmpty else !iTraces.isEmpty || c.rd.broken || c.wr.broken,
+    model := Json.mkObj [("traces", Json.arr (mTraces.map obsJson).toArray), ("broken", Json.arr #[c.rd.broken, c.wr.broken]),
+      ("misses", toJson misses)],
+    why := if !transparent then "not transparent: " ++ str (field impl "viol")
+           else match traceProblem with
+             | some e => e
+             | none => if misses != 0 then "driver: decode table does not match the model's framing" else "",
+    cls := if wf then (if (es.any (·.superseded)) then "wf-retry" else if es.any (fun e => e.held) then "wf-held" else "wf")
+           else if legal then "legal-odd" else "malformed" }
+
+/-! ### the retry collector on its own -/
+
+def parseRetryOp (j : Json) : COp :=
+  match arr j with
+  | k :: rest =>
+    match str k, rest with
+    | "c", [n, kind, idj] =>
+      let id : Json := toJson ((str idj).toNat?.getD (nat idj))
+      let err : Err := match str kind with
+        | "refused" => .stream (nat id) 7
+        | "goaway0" => .conn 0
+        | "cancel" => .stream (nat id) 8
+        | "goaway2" => .conn 2
+        | "io" => .io "x"
+        | _ => .none
+      .complete { Trace.empty with name := str n, err := err, req := [(":method", toString (nat id))] }
+    | "n", [n] => .newAttempt (str n)
+    | "t", [n] => .timesUp (str n)
+    | _, _ => .cancel
+  | [] => .cancel
+
+def idOf (t : Trace) : Nat := (getPseudo t.req ":method").toNat?.getD 0
+
+def handleRetry (inp impl : Json) : Verdict :=
+  let panic := str (field impl "panic")
+  if panic != "" then { agree := false, holds := false, why := "panic: " ++ panic } else
+  let ops := (arr (field inp "ops")).map parseRetryOp
+  let names := asSet (ops.filterMap (fun | .complete t => some t.name | .newAttempt n => some n | .timesUp n => some n | .cancel => none))
+  let c := Coll.init.run ops
+  let implOut : List (String × List Nat) := (arr (field impl "out")).map (fun p => match arr p with
+    | [n, ids] => (str n, natList ids)
+    | _ => ("", []))
+  let implFor (n : String) : List Nat := ((implOut.find? (·.1 == n)).map (·.2)).getD []
+  let modelOut := names.map (fun n => (n, (c.outFor n).map idOf))
+  let specOut := names.map (fun n => (n, (deliveriesFor n none ops).map idOf))
+  let implAll := names.map (fun n => (n, implFor n))
+  let extra := implOut.filter (fun p => !names.contains p.1 && !p.2.isEmpty)
+  let holds := implAll == specOut && extra.isEmpty
+  { agree := implAll == modelOut && extra.isEmpty, holds := holds,
+    nontrivial := ops.any (fun | .complete t => t.err.retryable | _ => false),
+    model := toJson (modelOut.map (fun p => Json.arr #[p.1, toJson p.2])),
+    why := if holds then "" else "deliveries per test name differ from the retry rule: expected " ++ toString specOut }
+
+/-! ### real peers over loopback: the property's predicate only (no model) -/
+
+def liveOK (isServer : Bool) (req : Json) (traces : List Obs) : Option String :=
+  let name := str (field req "name")
+  let got := traces.filter (fun o => o.name == name)
+  match got with
+  | [t] =>
+    let ct := str (field req "ct")
+    let reqFields : Fields := [("content-type", ct)]
+    let cfgQ : DCfg := { isReq := true, isStream := (propsOf reqFields).1, dec := (propsOf reqFields).2 }
+    let cfgP : DCfg := { isReq := false, isStream := (propsOf reqFields).1, dec := (propsOf reqFields).2 }
+    let reqBody := unhex (str (field req "reqBody"))
+    let respBody := unhex (str (field req "respBody"))
+    let path := str (field req "path")
+    let big := nat (field req "big")
+    let hdr (k : String) : List String := ((t.headers.find? (·.1 == k)).map (·.2)).getD []
+    let side := if isServer then "server" else "client"
+    if t.method != "POST" then some s!"{side} {name}: method {t.method}"
+    else if (if t.query.isEmpty && !t.forceQuery then t.path else t.path ++ "?" ++ t.query) != path then some s!"{side} {name}: path"
+    else if hdr "x-test-case-name" != [name] || hdr "content-type" != [ct] then some s!"{side} {name}: request headers"
+    else if big > 0 && (hdr "x-big").map String.length != [big] then some s!"{side} {name}: the large request header is missing"
+    else if !t.hasResp || t.status != nat (field req "status") then some s!"{side} {name}: response status"
+    else if ((t.respHeaders.find? (·.1 == "content-type")).map (·.2)).getD [] != [ct] then some s!"{side} {name}: response headers"
+    else if reqMsgsOf t.events != specMsgs cfgQ reqBody then some s!"{side} {name}: request messages"
+    else if respMsgsOf t.events != specMsgs cfgP respBody then some s!"{side} {name}: response messages"
+    else if t.events.head? != some OEv.reqStart || t.events.getLast? != some (OEv.respEnd .none) || t.err != .none then
+      some s!"{side} {name}: start / end of the trace"
+    else none
+  | l => some s!"{if isServer then "server" else "client"}: {l.length} completed traces for test {name}, expected exactly one"
+
+def handleLive (inp impl : Json) : Verdict :=
+  let panic := str (field impl "panic")
+  if panic != "" then { agree := false, holds := false, why := "panic: " ++ panic } else
+  if str (field impl "err") != "" then bad ("live exchange could not be run: " ++ str (field impl "err")) else
+  let reqs := arr (field inp "reqs")
+  let client := (arr (field impl "client")).map parseObs
+  let server := (arr (field impl "server")).map parseObs
+  let problems := reqs.filterMap (fun r => liveOK false r client) ++ reqs.filterMap (fun r => liveOK true r server)
+  let extra := (client ++ server).filter (fun o => !(reqs.any (fun r => str (field r "name") == o.name)))
+  let holds := problems.isEmpty && extra.isEmpty
+  { agree := holds, holds := holds, nontrivial := true, cls := "live",
+    why := if holds then "" else (problems.head?.getD "trace for an unknown test name") }
+
+def handle : Handler := fun op inp impl =>
+  match op with
+  | "conn" => handleConn inp impl
+  | "retry" => handleRetry inp impl
+  | "live" => handleLive inp impl
+  | _ => bad ("C15: unknown op " ++ op)
 
 end ConfModel.Driver.C15
